@@ -79,7 +79,8 @@ MCFixedTrees ==
 
 MCGrowKeys == RootKeys
 \* candidate values of a top-level entry, by weight
-MCGrowVals == LET tab == TabAt(0) IN [w \in 1..Budget |-> tab[w]]
+\* (TLCEval: an explicit function; a lazy one would rebuild the tables at every application)
+MCGrowVals == TLCEval(LET tab == TabAt(0) IN [w \in 1..Budget |-> tab[w]])
 
 \* the plan: every format, every option value, and two loads with the wrong root tag
 O == DefaultOpts
